@@ -266,7 +266,7 @@ class CaseGen:
 def gen_cases(ctx, reg):
     cg = CaseGen(ctx, reg)
     quick = ctx.tier == "quick"
-    cases = directed_minimal()
+    cases = corpus_cases("C07")
     mul = 1 if quick else 8
     for _ in range(650 * mul):
         cases.append(cg.make("random"))
@@ -308,37 +308,18 @@ def gen_cases(ctx, reg):
     return cases
 
 
-def directed_minimal():
-    """the smallest input for each defect found so far: they run first, so a replay file shows the minimal case"""
-    base_o = dict(opt_combo(0), simple=False)
-    none_m = lambda **kw: dict({"id": 1, "name": hx(b"f"), "missing": False, "ctx": False, "params": [], "variadic": False,
-                                "velem": None, "results": [], "err": True}, **kw)
-
-    def case(family, **kw):
-        c = {"family": family, "codec": "hprose", "copts": dict(base_o), "sopts": dict(base_o, debug=False), "types": [],
-             "methods": [none_m()], "call": hx(b"f"), "args": [], "want": [], "hdrs": [], "rhdrs": [],
-             "res": {"kind": "values", "values": [], "msg": ""}, "rtypes": [], "rt_default": False}
-        c.update(kw)
-        return c
+def corpus_cases(pid):
+    """minimised cases of defects found earlier: repaired ones (they must pass now) and known findings (they are
+    reported under their key on every run); they run first, so a replay file shows the minimal case"""
     out = []
-    # 1. a float64 header, a service decoding reals as float32, a call without arguments
-    out.append(case("min-header-error-dropped", sopts=dict(base_o, debug=False, real=1),
-                    hdrs=[{"k": hx(b"k"), "v": {"t": IFACE, "v": {"t": T("float64"), "v": iogen.f64bits(1e300)}}}]))
-    # 2. f(a interface{}, b *Inner) called with the same pointer twice
-    pin = Ptr(Reg("Inner"))
-    out.append(case("min-shared-pointer", types=[IFACE, pin], methods=[none_m(params=[0, 1])], want=[0, 1],
-                    args=[{"t": IFACE, "v": {"t": pin, "v": {"id": 900001, "v": {"X": "7", "Y": hx(b"y")}}}},
-                          {"t": pin, "v": {"ref": 900001}}]))
-    # 3. func() (interface{}, error) returning (errors.New("an error value"), nil)
-    out.append(case("error-value-result", methods=[none_m(results=[-1])], rt_default=True, rtypes=None,
-                    res={"kind": "values", "values": [{"t": IFACE, "v": {"t": T("error"), "v": hx(b"an error value")}}], "msg": ""}))
-    # 4. JSON-RPC: three results, two declared
-    ints = [{"t": T("int"), "v": str(i)} for i in (1, 2, 3)]
-    out.append(case("min-jsonrpc-more-results", codec="jsonrpc", types=[T("int")], methods=[none_m(results=[0, 0, 0])],
-                    res={"kind": "values", "values": ints, "msg": ""}, rtypes=[0, 0]))
-    # 5. JSON-RPC: f(a int) called with (1, 2)
-    out.append(case("min-jsonrpc-surplus", codec="jsonrpc", types=[T("int")], methods=[none_m(params=[0])], want=[0, -1],
-                    args=[{"t": T("int"), "v": "1"}, {"t": IFACE, "v": {"t": T("int"), "v": "2"}}]))
+    d = os.path.join(hv.V, "corpus")
+    for f in sorted(os.listdir(d)):
+        if f.startswith(pid + "-") and f.endswith(".json"):
+            r = json.load(open(os.path.join(d, f)))
+            c = dict(r["case"])
+            c["family"] = "corpus:" + f[len(pid) + 1:-5]
+            c.pop("id", None)
+            out.append(c)
     return out
 
 
@@ -540,7 +521,7 @@ def property_oracle(c, o):
         return out
     res = c["res"]
     msg = bytes.fromhex(res["msg"])
-    is_errval = fam == "error-value-result"
+    is_errval = fam in ("error-value-result", "corpus:known-error-value-result")
     if c["codec"] == "jsonrpc" and o.get("jreq") and o.get("jresp") and not o["jresp"].get("bad_json") \
        and not dec.get("panic") and o["jresp"].get("id") != o["jreq"].get("id"):
         out.append(("jsonrpc-id-not-echoed", "response id %s for request id %s" % (o["jresp"].get("id"), o["jreq"].get("id"))))
@@ -648,13 +629,6 @@ def compare(c, o, m):
                 dis.append("decoded headers: model %s go %s" % (m.get("hdrs", "")[:200], fmt_hdrs(dec["hdrs"])[:200]))
             if m.get("args") != fmt_vals(dec.get("args") or []):
                 dis.append("decoded arguments: model %s go %s" % (m.get("args", "")[:300], fmt_vals(dec.get("args") or [])[:300]))
-    elif sd == "dirty":
-        # the model's reading of the code: a header decode error is dropped when no argument list follows
-        if dec.get("failed") or dec.get("panic"):
-            dis.append("model: Decode succeeds although the headers could not be decoded; the service codec fails: %s"
-                       % (dec.get("err") or dec.get("panic") or "")[:160])
-        elif m.get("name") != dec["name"] or m.get("method") != str(dec["method"]):
-            dis.append("decoded name/method differ on the dropped-header-error path")
     elif sd == "nomethod":
         want = bytes.fromhex(m.get("msg", ""))
         if not dec.get("failed") or dec.get("err", "") != go_text(want):
@@ -742,7 +716,7 @@ def compare(c, o, m):
                 dis.append("model's own response scopes are not %s" % k[2:])
     # Service.Handle: decode, execute the scripted function, shape, encode
     rh = o.get("resp_handle") or {}
-    if hp and sd in ("ok", "dirty") and not dec.get("failed") and rh.get("hex") is not None and not o.get("unordered"):
+    if hp and sd == "ok" and not dec.get("failed") and rh.get("hex") is not None and not o.get("unordered"):
         debug_panic = c["sopts"]["debug"] and c["res"]["kind"] == "panic"
         fits = handle_comparable(c, o)
         nrh = len(c["rhdrs"]) + int(c["sopts"]["simple"])
@@ -773,10 +747,6 @@ def handle_comparable(c, o):
             return False
     elif n != fixed:
         return False
-    # a nil interface{} argument makes reflect.Call panic (C08's business)
-    for sx, w in zip(o.get("args_sx") or [], c["want"]):
-        if sx == "(nil)" and (w < 0 or o["type_names"][w] == "interface {}"):
-            return False
     return True
 
 
